@@ -721,6 +721,11 @@ var corpus = []string{
 	`x=1;func f(){a=[x];x=2;a};f()`,
 	`1/0`, `1%0`, `1<<(-1)`, `1>>(-1)`, `catch(1/0).err`,
 	`"abc"[-5:2]`, `a=[1,2,3];a[-7:1]`, `"abc"[5:10]`, `[1,2,3][2:1]`,
+	`a=[1,2,3,4,5,6,7,8,9]; a=a+10; b=a+11; c=a+12; b[-1]`,
+	`a=[1,2,3,4,5,6,7,8,9]; a=a+10; b=a+11; c=a+12; println(b, c, a)`,
+	`a=[1,2,3,4,5,6,7,8,9]; a=a+[10]; b=a+[11]; c=a+[12]; [b, c, a]`,
+	`a=[1,2,3,4,5,6,7,8,9]+10; func fk(p){x=p+1;y=p+2;[x,y,p]}; [fk(a), a]`,
+	`m={1:1,3:3,5:5,7:7}+{9:9}; x=m+{11:1}; y=m+{11:2}; d=m; del(d[1]); [x, y, d, m]`,
 	`a=[1,2,3,4,5,6,7,8,9,10];b=a;b[0]=99;a[0]`,
 	`a=[1,2,3,4,5,6,7,8,9];b=a+[10];x=b+[11];y=b+[12];x`,
 	`m={1:1,2:2,3:3,4:4,5:5};n=m;n[1]=99;m[1]`,
@@ -905,7 +910,7 @@ func runC01(c *Ctx) {
 	for _, src := range corpus {
 		r.one(src, "corpus", map[string]bool{"corpus": true, "a": true, "b": true})
 	}
-	nprog, nwrap := 10000, 1500
+	nprog, nwrap := 8000, 1200
 	if c.Thorough() {
 		nprog, nwrap = 60000, 5000
 	}
@@ -927,6 +932,19 @@ func runC01(c *Ctx) {
 			kind = "ill-typed"
 		}
 		r.one(src, kind, g.feats)
+	}
+	// fork stream: values derived from one base container must not see each other's changes
+	nfork := 2500
+	if c.Thorough() {
+		nfork = 20000
+	}
+	for i := 0; i < nfork; i++ {
+		g := newGen(c.R, false)
+		src := g.forkProgram()
+		for f := range g.feats {
+			featTotal[f]++
+		}
+		r.one(src, "fork", g.feats)
 	}
 	for i := 0; i < nwrap; i++ {
 		r.wrapOracle(newGen(c.R, false))
